@@ -413,6 +413,25 @@ Section WithMac.
          | OutOfFuel => OutOfFuel
          end.
 
+  (* ServerError::build_message, Unsigned arm, the octets: [resp] is what
+     start_answer(msg, rcode).additional() built (an input, as for the signed
+     arm); the TSIG record of the request is echoed with an empty MAC, the
+     request's current ID, the error code and no other data.  Owner and
+     algorithm name are written as the request spelled them (the parsed names,
+     flattened); CLASS and TTL are the request's, i.e. ANY and 0 (from_message
+     checks them, T1 tsig_class_ttl_checked). *)
+  Definition unsigned_error_response (req resp : bytes) (code : N) : outcome bytes :=
+    if formerr_plain_response && (code =? RC_FORMERR) then Ok resp
+    else match from_message req with
+         | Ok t =>
+             let rd := tsig_rdata (wire_abs (mt_algname t)) (mt_time t) (mt_fudge t) [] (hdr_id req) code [] in
+             if 65535 <=? arcount resp then Err E_PUSH
+             else Ok (set_arcount resp (arcount resp + 1) ++ tsig_rr (wire_abs (mt_owner t)) rd)
+         | Err _ => Panic P_EXPECT_TSIG
+         | Panic s => Panic s
+         | OutOfFuel => OutOfFuel
+         end.
+
   (* ServerTransaction::answer_with_fudge (final_answer), also the Signed arm
      of ServerError::build_message with the BADTIME variables *)
   Definition server_answer_vars (k : key) (c : ctx) (msg : bytes) (v : vars) : outcome bytes :=
